@@ -98,6 +98,10 @@ func (r *Reflog) load(rootGoitPath string, head *Head, refs *Refs) error {
 
 		r.records = append(r.records, record)
 	}
+	// a read error must not pass for the end of the log
+	if err := scanner.Err(); err != nil {
+		return fmt.Errorf("fail to read %s: %w", headPath, err)
+	}
 
 	return nil
 }
